@@ -126,7 +126,14 @@ class Interp:
 
     # ------------------------------------------------------------------ types -> top values
     def adt_info(self, path):
-        return self.prog.adts.get(mirlib.strip_generics(path))
+        p = mirlib.strip_generics(path)
+        a = self.prog.adts.get(p)
+        if a is None and "::" in p:
+            # a type of another analysed crate is recorded under its crate-relative path
+            head, rest = p.split("::", 1)
+            if head in self.prog.crates:
+                a = self.prog.adts.get(rest)
+        return a
 
     def subst_ty(self, ty, targs):
         """substitute type params (by index parsed from 'T/#n') using targs list"""
